@@ -38,6 +38,12 @@ def all_paths(x, base=()):
     return out
 
 
+def get_at(doc, path):
+    for p in path:
+        doc = doc[p]
+    return doc
+
+
 def set_at(doc, path, value):
     for p in path[:-1]:
         doc = doc[p]
@@ -164,6 +170,28 @@ class C04(core.PropBase):
             doc = G.gen_env_template(rng) if kind == "env" else G.gen_job_template(rng)
             M.mutate(rng, doc, n=rng.choice([1, 2, 3, 4]))
             yield {"kind": kind, "doc": doc, "tag": "mutated"}
+        # 3b. long strings and long reference names at every string position of a rich template (lengths around
+        #     the powers of two where a fixed-width counter, buffer or recursion budget would give out)
+        for b in range(2 if thorough else 1):
+            for kind in ("job", "env"):
+                doc = G.gen_env_template(rng, full=True) if kind == "env" else G.gen_job_template(rng, full=True)
+                spots = [p for p in all_paths(doc) if isinstance(get_at(doc, p), str)]
+                if not thorough:
+                    spots = rng.sample(spots, min(len(spots), 16))
+                for p in spots:
+                    for n in ((127, 128, 255, 256, 257, 511, 512, 1023, 1025) if thorough else (255, 256, 257, 1025)):
+                        for form in ("{{Param.%s}}", "{{ %s }}", "{{Task.Param.%s}} {{Param.%s}}", "%s"):
+                            if not thorough and rng.random() < 0.5:
+                                continue
+                            d = copy.deepcopy(doc)
+                            set_at(d, p, form.replace("%s", "n" * n))
+                            yield {"kind": kind, "doc": d, "tag": "long-name"}
+                    for n in (65535, 65537, 300000):
+                        if not thorough and rng.random() < 0.7:
+                            continue
+                        d = copy.deepcopy(doc)
+                        set_at(d, p, "x" * n)
+                        yield {"kind": kind, "doc": d, "tag": "long-string"}
         # 4. document_string_to_object on short strings over the JSON/YAML meta-characters
         n = 4 if thorough else 3
         strs = []
@@ -217,11 +245,16 @@ class C04(core.PropBase):
             same = repr(doc) == repr(before)      # repr: NaN-safe, key-order-sensitive deep comparison
         except Exception:  # noqa: BLE001
             same = True
-        return ["decode", v, "untouched" if same else "INPUT-MODIFIED"]
+        res = ["decode", v, "untouched" if same else "INPUT-MODIFIED"]
+        if case.get("tag") in ("long-name", "long-string"):
+            case["_io"] = res          # model_obs needs it: do not decode these twice
+        return res
 
     def requests(self, case):
         if case["kind"] == "docstr" or not jsonable(case["doc"]):
             return []
+        if case.get("tag") == "long-string":
+            return []          # totality only: a 300 000-character literal costs the extracted model minutes
         if core.doc_chars(case["doc"]) - set(self.chars):
             return []
         return [["accept_" + case["kind"], core.json_sx(case["doc"])]]
@@ -229,7 +262,8 @@ class C04(core.PropBase):
     def model_obs(self, case, replies):
         if case["kind"] == "docstr":
             return ["docstr", []]
-        io = self.impl(case)
+        io = case.pop("_io", None) or self.impl(case)
+        case.pop("_io", None)
         total = ["decode", io[1] if io[1] in ("model", "DVE") else "model-or-DVE", "untouched"]
         if not replies:
             return total
